@@ -108,7 +108,15 @@ def conv2d(x, w, bias, xq, wq, yq, opts, dtype, depthwise=False, dm=1, float_pro
                     acc += np.repeat(patch, dm, axis=3) * wk
             else:
                 wk = wz[:, ky, kx, :] - (wzp[:, None] if wzp.size == co else wzp[0])
-                acc += np.tensordot(patch, wk, axes=([3], [1]))
+                ci = wk.shape[1]
+                if ci == c:
+                    acc += np.tensordot(patch, wk, axes=([3], [1]))
+                else:
+                    # grouped convolution (TFLite: filter depth = input depth / groups; output channels are split evenly over the groups)
+                    groups = c // ci
+                    cg = co // groups
+                    for g in range(groups):
+                        acc[..., g * cg:(g + 1) * cg] += np.tensordot(patch[..., g * ci:(g + 1) * ci], wk[g * cg:(g + 1) * cg], axes=([3], [1]))
     if bias is not None:
         acc += bias.astype(np.int64)
     out = np.zeros_like(acc)
